@@ -16,10 +16,51 @@ Definition run_net (c : runcase) : res (list callrec) :=
     net_run_script (p_tasks (rc_prog c)) (env_of c) net_fuel s (rc_script c))
   else Unsupported.
 
-(* the generated net, for the structural comparison with the implementation's net *)
-Definition gen_net (c : runcase) : res (list (option nat) * list trans * list (list cb) * nat * nat) :=
-  rbind (net_init (p_tasks (rc_prog c)) true) (fun s =>
-  Ok (ns_places s, ns_trans s, ns_cbs s, ns_start_place s, ns_final_place s)).
+(* ---- the generated net, for the structural comparison with the implementation's net ----
+   signature of a net: number of places, start place, final place, and per transition (in
+   creation order) its input places, its output places (as sorted lists: arcs are a set) and the signatures of its callbacks in registration order *)
+Definition api_sig (s : NS) (a : nat) : list nat :=
+  match nth_error (ns_apis s) a with
+  | Some x => a_name x :: st_task (a_site x) :: st_path (a_site x)
+  | None => []
+  end.
+Definition cb_sig (s : NS) (c : cb) : list nat :=
+  match c with
+  | CbTS a => 0 :: api_sig s a
+  | CbTF a => 1 :: api_sig s a
+  | CbSS a => 2 :: api_sig s a
+  | CbSF a => 3 :: api_sig s a
+  | CbCond _ pt pf ctx => 4 :: pt :: pf :: api_sig s ctx
+  | CbWhile _ pt pf ctx => 5 :: pt :: pf :: api_sig s ctx
+  | CbCount key _ pt pf ctx => 6 :: pt :: pf :: st_task key :: st_path key
+  | CbParLoop v _ ctx cl _ ph t1 t2 => [7; v; ph; t1; t2; c_name cl]
+  end.
+Fixpoint ins_sorted (x : nat) (l : list nat) : list nat :=
+  match l with
+  | [] => [x]
+  | y :: r => if Nat.leb x y then x :: l else y :: ins_sorted x r
+  end.
+Definition sort_nat (l : list nat) : list nat := fold_right ins_sorted [] l.
+
+Definition net_sig_of (s : NS) : nat * nat * nat * list (list nat * list nat * list (list nat)) :=
+  (List.length (ns_places s), ns_start_place s, ns_final_place s,
+   map (fun tc => (sort_nat (tr_pre (fst tc)), sort_nat (tr_post (fst tc)), map (cb_sig s) (snd tc)))
+       (combine (ns_trans s) (ns_cbs s))).
+
+Definition sig_eqb (a b : nat * nat * nat * list (list nat * list nat * list (list nat))) : bool :=
+  let '(pa, sa, fa, ta) := a in
+  let '(pb, sb, fb, tb) := b in
+  Nat.eqb pa pb && Nat.eqb sa sb && Nat.eqb fa fb
+  && list_eqb (fun x y => list_eqb Nat.eqb (fst (fst x)) (fst (fst y))
+                          && list_eqb Nat.eqb (snd (fst x)) (snd (fst y))
+                          && list_eqb (list_eqb Nat.eqb) (snd x) (snd y)) ta tb.
+
+(* 0 = equal; 1 = different; 2.. = the model does not produce a net *)
+Definition judge_net_sig (c : runcase) (impl : nat * nat * nat * list (list nat * list nat * list (list nat))) : nat :=
+  match net_init (p_tasks (rc_prog c)) true with
+  | Ok s => if sig_eqb (net_sig_of s) impl then 0 else 1
+  | Fuel => 2 | Exn _ => 3 | Unsupported => 4
+  end.
 
 Definition judge_net_with (p : proj) (mon : runcase -> list callrec -> bool)
            (c : runcase) (impl : list callrec) : verdict :=
